@@ -70,7 +70,7 @@ func main() {
 	}
 	var evals int64
 	held := make([]heldAddr, 24)
-	for i := 0; i < n; i++ {
+	for i := 0; i < n && (i%4096 != 0 || !res.TimeUp()); i++ {
 		port := r.Pick(0, 1, 80, 255, 256, 65535, r.Intn(65536))
 		var ip net.IP
 		var class string
